@@ -3695,13 +3695,9 @@ func (vm *Thread) opSelect() value.Value {
 	chosenCase := selectData.Cases[chosenCaseIndex]
 	chosenChannel := channels[chosenCaseIndex]
 
-	if !channelOpen {
-		var result value.Result
-		if chosenCase.Direction == reflect.SelectSend {
-			result = value.MakeErrResult(value.ChannelClosedPopError.ToValue())
-		} else {
-			result = value.MakeErrResult(value.ChannelClosedPushError.ToValue())
-		}
+	// the flag is only meaningful for a receive, it is false after every send
+	if !channelOpen && chosenCase.Direction == reflect.SelectRecv {
+		result := value.MakeErrResult(value.ChannelClosedPopError.ToValue())
 		vm.push(result.ToValue())
 		vm.push(value.SmallInt(chosenCaseIndex).ToValue())
 		return value.Undefined
